@@ -625,6 +625,17 @@ class FnExec:
         return outs
 
     def s_Pass(self, s, st, pc): return [Outcome("normal", st, pc)]
+    def s_Delete(self, s, st, pc):
+        """del xs[i] on a list: the elements after i move down by one (IndexError when i is out of range; negative indices not modelled)"""
+        for tgt in s.targets:
+            if not isinstance(tgt, ast.Subscript): raise Unsupported("del of a non-subscript")
+            root, steps = self.path_of(tgt.value, st, pc); cont = self.read_path(st, root, steps); idx = self.expr(tgt.slice, st, pc)
+            if not isinstance(cont.t, ListT): raise Unsupported(f"del on {cont.t!r}")
+            t = cont.t; ln = t.len(cont.z); q = z3.Int(f"dq!{uid()}")
+            self.branch_exc(pc, z3.Not(z3.And(idx.z >= 0, idx.z < ln)), "IndexError", s)
+            arr = z3.Lambda([q], z3.If(q < idx.z, z3.Select(t.arr(cont.z), q), z3.Select(t.arr(cont.z), q + 1)))
+            self.write_path(st, root, steps, Val(t, t.make(ln - 1, arr, like=cont.z)))
+        return [Outcome("normal", st, pc)]
     def s_FunctionDef(self, s, st, pc):
         st.env[s.name] = Val(NONE, z3.BoolVal(True), meta={"closure": s.name}); return [Outcome("normal", st, pc)]
     def s_Expr(self, s, st, pc):
@@ -754,6 +765,11 @@ class FnExec:
                 if r:
                     for t in (n.targets if isinstance(n, ast.Assign) else [n.target]):
                         if isinstance(t, ast.Name): alias.setdefault(t.id, set()).add(r)
+            if isinstance(n, ast.For):
+                # the loop variable may be a reference to an element of whatever is iterated: mutating it mutates that container (conservatively: every name in the header)
+                srcs = {x.id for x in ast.walk(n.iter) if isinstance(x, ast.Name)}
+                for t in ast.walk(n.target):
+                    if isinstance(t, ast.Name): alias.setdefault(t.id, set()).update(srcs)
         changed = True
         while changed:
             changed = False
@@ -811,6 +827,11 @@ class FnExec:
         elif isinstance(it, ast.Call) and isinstance(it.func, ast.Attribute) and it.func.attr in ("keys", "items", "values") and not it.args \
                 and isinstance(self.expr(it.func.value, st, list(pc)).t, DictT):
             return self.for_dict(s, st, pc, k, lspec, it.func.value, it.func.attr)
+        elif isinstance(it, ast.Call) and isinstance(it.func, ast.Name) and it.func.id == "reversed" and len(it.args) == 1:
+            seq = self.expr(it.args[0], st, pc)
+            if not isinstance(seq.t, ListT) or seq.t.elem.mutable: raise Unsupported("reversed() of " + ast.unparse(it.args[0]))
+            lo, hi = z3.IntVal(0), seq.t.len(seq.z)                   # the IT-th iteration visits xs[len - 1 - IT]
+            def bind(state, g): self.assign(s.target, Val(seq.t.elem, seq.t.at(seq.z, seq.t.len(seq.z) - 1 - g["IT"])), state, [])
         elif isinstance(it, (ast.Name, ast.Attribute)):
             root, steps = self.path_of(it, st, pc); seq = self.read_path(st, root, steps)
             if not isinstance(seq.t, ListT): raise Unsupported(f"for over {seq.t!r}")
@@ -874,7 +895,7 @@ class FnExec:
 
     def loop_generic(self, s, st, pc, k, lspec, ghosts0, guard, bind, advance, implicit, guard_state=None):
         for nm, e in lspec.get("snap", {}).items(): st.env[nm] = self.spec_expr(e, st, [])
-        mods = self.assigned_roots(s.body)
+        mods = self.assigned_roots([s]) if isinstance(s, ast.For) else self.assigned_roots(s.body)      # the For node itself: its target aliases what it iterates
         for g in lspec.get("ghost_end", []): mods |= self.assigned_roots(ast.parse(g).body)
         mods = self.resolve_roots(st, mods)
         def invs(state, g):
